@@ -352,8 +352,10 @@ static std::string seq_string(uint64_t idx, const std::string &alphabet, unsigne
 }
 
 // ---------------------------------------------------------------- trim
-static const char *const CHARSETS[] = {" ", " \t", "x", "", nullptr /* default argument */, "\t x"};
-enum { NCHARSETS = 6 };
+static const char *const CHARSETS[] = {" ", " \t", "x", "", nullptr /* default argument */, "\t x",
+                                       // bytes >= 0x80 in the set (NBSP in Latin-1 / a UTF-8 character / a byte whose low 7 bits are TAB)
+                                       "\xA0", "\xC3\xA9", "x\x89"};
+enum { NCHARSETS = 6, NCHARSETS_ALL = 9 };
 
 static void check_trim(Ctx &c, const std::string &subj, int csi)
 {
@@ -528,6 +530,22 @@ static void build(vf::Plan &plan, const vf::Opts &o)
                                CHARSETS[csi] ? vf::vis(CHARSETS[csi], strlen(CHARSETS[csi])).c_str() : "<default>");
                });
 
+    // ---- trim with bytes >= 0x80 in the subject and in the set: a byte is in the set only if it is equal to a member
+    {
+        const std::string HA(" x\xA0\x89\xC3\xA9\x8A", 7);
+        const unsigned HL = reduced ? 3 : T ? 6 : 5;
+        plan.stage(strf("trim*:{SP,x,A0,89,C3,A9,8A}^<=%u x 9 charsets (three of them with bytes >= 0x80)", HL), vf::seq_count(HA.size(), HL) * NCHARSETS_ALL,
+                   [HA, HL](uint64_t idx, Ctx &c) {
+                       int csi = (int)vf::take(idx, NCHARSETS_ALL);
+                       check_trim(c, seq_string(idx, HA, HL), csi);
+                   },
+                   [HA, HL](uint64_t idx) {
+                       int csi = (int)vf::take(idx, NCHARSETS_ALL);
+                       return strf("s=%s charset=%s", vf::vis(seq_string(idx, HA, HL)).c_str(),
+                                   CHARSETS[csi] ? vf::vis(CHARSETS[csi], strlen(CHARSETS[csi])).c_str() : "<default>");
+                   });
+    }
+
     // ---- before / after
     const std::string SA("abA:\0", 5);
     const unsigned SL = reduced ? 3 : T ? 7 : 6;
@@ -581,6 +599,54 @@ static void build(vf::Plan &plan, const vf::Opts &o)
                                   return strf("s=%s sep=%s", vf::vis(text).c_str(), vf::vis(sep).c_str());
                               });
         st.case_timeout_s = 10;
+    }
+    // ---- separators / character sets that point into the subject's own storage: same result as for a separate copy
+    if (!reduced) {
+        const std::string AA("abA:\0", 5);
+        auto subj_of = [AA](uint64_t i) {
+            static const char *const LONGS[3] = {"key::value::more::key::value", "aaaaaaaaaaaaaaaaaaab:aaab", "  padded value, padded  "};
+            uint64_t ns = vf::seq_count(AA.size(), 4);
+            return i < ns ? seq_string(i, AA, 4) : std::string(LONGS[i - ns]);
+        };
+        plan.stage("aliased separator: every suffix of the subject's own c_str() as separator / character set ({a,b,A,':',NUL}^<=4 and three long subjects)",
+                   vf::seq_count(AA.size(), 4) + 3,
+                   [subj_of](uint64_t i, Ctx &c) {
+                       std::string subj = subj_of(i);
+                       ST::string s = mkst(subj);
+                       auto bytes = [](const ST::string &x) { return std::string(x.c_str(), x.size()); };
+                       vf::Outcome o = vf::guard([&] {
+                           for (size_t off = 0; off <= subj.size(); ++off) {
+                               const char *own = s.c_str() + off;
+                               std::string copy(own);  // the C string that pointer denotes
+                               for (int ci = 0; ci < 2; ++ci) {
+                                   ST::case_sensitivity_t cs = ci ? ST::case_insensitive : ST::case_sensitive;
+                                   std::string a[4] = {bytes(s.before_first(own, cs)), bytes(s.after_first(own, cs)), bytes(s.before_last(own, cs)), bytes(s.after_last(own, cs))};
+                                   std::string b[4] = {bytes(s.before_first(copy.c_str(), cs)), bytes(s.after_first(copy.c_str(), cs)), bytes(s.before_last(copy.c_str(), cs)),
+                                                       bytes(s.after_last(copy.c_str(), cs))};
+                                   VF_COUNT("validated");
+                                   for (int k = 0; k < 4; ++k)
+                                       if (a[k] != b[k])
+                                           c.fail(strf("%s(const char*):separator-inside-the-subject:differs-from-a-copy", OPN[BF + k]),
+                                                  strf("s=%s separator = own c_str()+%zu: %s, with a copy %s", vf::vis(subj).c_str(), off, vf::vis(a[k]).c_str(), vf::vis(b[k]).c_str()));
+                                   std::string a8 = bytes(s.after_first((const char8_t *)own, cs)), b8 = bytes(s.after_first((const char8_t *)copy.c_str(), cs));
+                                   if (a8 != b8) c.fail("after_first(const char8_t*):separator-inside-the-subject:differs-from-a-copy", strf("s=%s +%zu", vf::vis(subj).c_str(), off));
+                               }
+                               std::string t1 = bytes(s.trim(own)), t2 = bytes(s.trim(copy.c_str())), l1 = bytes(s.trim_left(own)), l2 = bytes(s.trim_left(copy.c_str())),
+                                           r1 = bytes(s.trim_right(own)), r2 = bytes(s.trim_right(copy.c_str()));
+                               VF_COUNT("validated");
+                               if (t1 != t2 || l1 != l2 || r1 != r2)
+                                   c.fail("trim*(own c_str()+k):charset-inside-the-subject:differs-from-a-copy", strf("s=%s charset = own c_str()+%zu", vf::vis(subj).c_str(), off));
+                           }
+                           ST::string copy = mkst(subj);
+                           VF_COUNT("validated");
+                           if (bytes(s.before_first(s)) != bytes(s.before_first(copy)) || bytes(s.after_first(s)) != bytes(s.after_first(copy)) ||
+                               bytes(s.before_last(s)) != bytes(s.before_last(copy)) || bytes(s.after_last(s)) != bytes(s.after_last(copy)))
+                               c.fail("before/after(ST::string):separator-is-the-subject:differs-from-a-copy", strf("s=%s", vf::vis(subj).c_str()));
+                       });
+                       if (!o.ok()) c.fail(strf("aliased-separator:%s", vf::outkind_name(o.kind)), o.str());
+                       if (subj.size() > 1) c.nontrivial();
+                   },
+                   [subj_of](uint64_t i) { return strf("s=%s", vf::vis(subj_of(i)).c_str()); });
     }
     // ---- a subject of more than 2^31 bytes (positions and sizes that no longer fit an int / a 32-bit integer)
     if (!reduced) {
